@@ -57,7 +57,7 @@ class ShaclSerializer(object):
                  instantiation_property_str=RDF_TYPE_STR, wikidata_annotation=False,
                  detect_minimal_iri=False, shape_example_features=None):
         self._target_file = target_file
-        self._namespaces_dict = namespaces_dict if namespaces_dict is not None else {}
+        self._namespaces_dict = dict(namespaces_dict) if namespaces_dict is not None else {}  # own copy: sh: is added here
         self._shapes_list = shapes_list
         self._string_return = string_return
         self._instantiation_property_str = instantiation_property_str
